@@ -464,7 +464,13 @@ class Inliner:
         call = None
         form = None
         tgt_name = None
-        if isinstance(s, ast.Expr) and isinstance(s.value, ast.Call):
+        if isinstance(s, ast.Expr) and isinstance(s.value, ast.Call) and isinstance(s.value.func, ast.Attribute) and s.value.func.attr == "extend" \
+                and isinstance(s.value.func.value, ast.Name) and len(s.value.args) == 1 and isinstance(s.value.args[0], ast.Call) and not s.value.keywords \
+                and self.target(s.value.args[0], scope) is not None and _is_generator(self.target(s.value.args[0], scope)[1]):
+            # L.extend(generator_helper(args)): its yields become L.append(...), its `yield from X` L.extend(X)
+            call, form = s.value.args[0], "extend"
+            extend_to = s.value.func.value.id
+        elif isinstance(s, ast.Expr) and isinstance(s.value, ast.Call):
             call, form = s.value, "stmt"
         elif isinstance(s, ast.Expr) and isinstance(s.value, ast.YieldFrom) and isinstance(s.value.value, ast.Call):
             call, form = s.value.value, "yieldfrom"
@@ -490,7 +496,7 @@ class Inliner:
             if any(self.target(c, q.split(".")[:-1]) and self.target(c, q.split(".")[:-1])[1] is h for c in ast.walk(h) if isinstance(c, ast.Call)):
                 raise NotInlinable("recursive helper")
             gen = _is_generator(h)
-            if gen != (form == "yieldfrom"):
+            if gen != (form in ("yieldfrom", "extend")):
                 raise NotInlinable("generator helper not used through yield from" if gen else "yield from a non-generator")
             nested_in_caller = any(n is h for n in ast.walk(caller))
             subst, rename, prelude, shadowed = self.bind(h, call, recv, caller, tgt_name)
@@ -501,6 +507,32 @@ class Inliner:
                 new = prelude + body
                 if not body or not isinstance(body[-1], ast.Return):
                     new.append(ast.copy_location(ast.Return(value=None), s))
+            elif form == "extend":
+                if extend_to in _assigned_names(h) or any(isinstance(n, ast.Name) and n.id == extend_to for n in ast.walk(h)):
+                    raise NotInlinable("the helper uses the name of the list it is extended into")
+
+                def on_ret(v, at):
+                    return []
+                b2, _ = _tailify(body, on_ret)
+
+                class Y(ast.NodeTransformer):
+                    def visit_Expr(self, n: ast.Expr):
+                        if isinstance(n.value, ast.Yield):
+                            val = n.value.value if n.value.value is not None else ast.Constant(value=None)
+                            return ast.copy_location(ast.Expr(value=ast.Call(func=ast.Attribute(value=ast.Name(id=extend_to, ctx=ast.Load()), attr="append", ctx=ast.Load()), args=[val], keywords=[])), n)
+                        if isinstance(n.value, ast.YieldFrom):
+                            return ast.copy_location(ast.Expr(value=ast.Call(func=ast.Attribute(value=ast.Name(id=extend_to, ctx=ast.Load()), attr="extend", ctx=ast.Load()), args=[n.value.value], keywords=[])), n)
+                        return n
+
+                    def visit_FunctionDef(self, n):
+                        return n
+
+                    visit_AsyncFunctionDef = visit_Lambda = visit_FunctionDef
+
+                b2 = [Y().visit(x) for x in b2]
+                if any(isinstance(n, (ast.Yield, ast.YieldFrom)) for x in b2 for n in _walk_no_defs(x)):
+                    raise NotInlinable("a yield of the helper is used as an expression")
+                new = prelude + b2
             elif form == "yieldfrom":
                 def on_ret(v, at):
                     return [] if v is None or isinstance(v, (ast.Constant, ast.Name)) else [ast.copy_location(ast.Expr(value=v), at)]
